@@ -524,11 +524,11 @@ Qed.
 (* ------------------------------------------- seeded random patterns (Pseed) *)
 Lemma sdR_inner p z idx k cs T :
   prod_out (if cnt_zero k then Tau (SSeedA cs p) else
-            match p with
-            | PseedRand _ l _ => match rand_item rnd l z idx with
-                                 | Some q => Tau (SSdR z ((0, Z.of_nat (length l))%Z :: idx) (cnt_dec k) (init Emb q) cs p)
-                                 | None => Err end
-            | _ => Err end) T ->
+            match rand_body p with
+            | Some (l, a, b) => match rand_item rnd a b l z idx with
+                                | Some q => Tau (SSdR z ((a, b) :: idx) (cnt_dec k) (init Emb q) cs p)
+                                | None => Err end
+            | None => Err end) T ->
   forall l0 e cur, prod cur (l0, e) -> prod (SSdR z idx k cur cs p) (tapp (l0, e) T).
 Proof.
   intros HT l0 e. induction l0 as [|v l0 IH]; intros cur Hc.
@@ -537,16 +537,16 @@ Proof.
   - eapply (pull _ _ Hc (fun x => SSdR z idx k x cs p)). intros; reflexivity.
     cbn. intros c' Hc'. rewrite tapp_cons. apply po_yield'. apply IH. exact Hc'.
 Qed.
-Lemma prod_sdR (d : pat -> trace) sd l r z cs K :
+Lemma prod_sdR (d : pat -> trace) p l a b z cs K : rand_body p = Some (l, a, b) ->
   (forall q, prod (init Emb q) (d q)) ->
-  prod (SSeedA cs (PseedRand sd l r)) K ->
+  prod (SSeedA cs p) K ->
   forall count k idx cur tc, prod cur tc ->
-  prod (SSdR z idx k cur cs (PseedRand sd l r)) (tapp tc (trand rnd d l z k idx count K)).
+  prod (SSdR z idx k cur cs p) (tapp tc (trand rnd d a b l z k idx count K)).
 Proof.
-  intros Hd HK. induction count as [|c IH]; intros k idx cur [l0 e] Hc; apply sdR_inner; try exact Hc.
+  intros Hb Hd HK. induction count as [|c IH]; intros k idx cur [l0 e] Hc; apply sdR_inner; try exact Hc.
   - cbn. apply po_more.
-  - cbn [trand]. destruct (cnt_zero k). apply po_tau. exact HK.
-    destruct (rand_item rnd l z idx) as [q|]; [|constructor].
+  - cbn [trand]. destruct (cnt_zero k). apply po_tau. exact HK. rewrite Hb.
+    destruct (rand_item rnd a b l z idx) as [q|]; [|constructor].
     apply po_tau. apply IH. apply Hd.
 Qed.
 Lemma sdX_inner p z idx index k cs T :
@@ -604,6 +604,7 @@ Lemma prod_seedA p (body : Z -> trace -> trace) :
                    | [] => Err
                    | _ => Tau (SSdX z [(0, Z.of_nat (length l))%Z] (rnd z [] 0%Z (Z.of_nat (length l))) (cnt_of r) SDone x p) end
                | PseedWhite _ lo hi len => Tau (SSdWA z [] (cnt_of len) (init Str lo) (init Str hi) x p)
+               | PseedWrand _ l _ r => match l with [] => Err | _ => Tau (SSdR z [] (cnt_of r) SDone x p) end
                | _ => Err end) (body z K)) ->
   forall ls es cs, prod cs (ls, es) -> prod (SSeedA cs p) (tseed body ls es).
 Proof.
@@ -651,11 +652,14 @@ Proof.
       sub IH p1. sub IH p2. apply prod_slide; try assumption. congruence. intros q; apply IH.
     + (* PseedRand *) sub IH p. apply prod_seedA; [|assumption].
       intros z x K HK. destruct l as [|q0 l']. constructor. apply po_tau.
-      rewrite <- (tapp_nil_stop (trand _ _ _ _ _ _ _ _)). apply prod_sdR. intros q; apply IH. exact HK. apply prod_done.
+      rewrite <- (tapp_nil_stop (trand _ _ _ _ _ _ _ _ _ _)). eapply prod_sdR. reflexivity. intros q; apply IH. exact HK. apply prod_done.
     + (* PseedXrand *) sub IH p. apply prod_seedA; [|assumption].
       intros z x K HK. destruct l as [|q0 l']. constructor. apply po_tau.
       rewrite <- (tapp_nil_stop (txrand _ _ _ _ _ _ _ _ _)). apply prod_sdX. intros q; apply IH. exact HK. apply prod_done.
     + (* PseedWhite *) sub IH p1. apply prod_seedA; [|assumption].
       intros z x K HK. apply po_tau. sub IH p2. sub IH p3. apply prod_sdW; assumption.
+    + (* PseedWrand *) sub IH p. apply prod_seedA; [|assumption].
+      intros z x K HK. destruct l as [|q0 l']. constructor. apply po_tau.
+      rewrite <- (tapp_nil_stop (trand _ _ _ _ _ _ _ _ _ _)). eapply prod_sdR. reflexivity. intros q; apply IH. exact HK. apply prod_done.
 Qed.
 End Sound.
